@@ -83,7 +83,9 @@ def expected(defs, prot, existing, allf, tg, proj="/proj"):
 
 
 def case_batch(acc, batch):
-    for wname, plabel, missing in batch:
+    for item in batch:
+        wname, plabel, missing = item[:3]
+        symlinked = item[3] if len(item) > 3 else None
         defs = workflows()[wname]
         prot = dict(protect_variants(defs))[plabel]
         names = [d[0] for d in defs]
@@ -93,6 +95,10 @@ def case_batch(acc, batch):
         for s in CW.sources(wf):
             files[s] = (1, "src")
         files["unrelated.txt"] = (1, "keep me")
+        if symlinked:
+            # this declared output exists as a symbolic link to a file that is *not* a declared output: clean may remove the link,
+            # never the file it points to
+            files[symlinked] = (files.get(symlinked, (2, ""))[0], ("symlink", "unrelated.txt"))
         files["sub/other"] = (1, "keep me too")
         hashes = {n: W.sha1(f"echo {n}\n") for n in names}
         w0 = W.World(wf, files=files, conf={"backend": "slurm", "use_spec_hashes": True}, tracked={"slurm": {names[0]: "1"}}, hashes=hashes,
@@ -104,7 +110,7 @@ def case_batch(acc, batch):
                 after = s.snapshot()
                 journal = [e for e in s.sim.s["journal"] if e["op"] in ("submit", "cancel")]
             acc.extra["invocations"] += 1
-            case = dict(wf=wname, protect=plabel, missing=missing, args=args, answer=ans)
+            case = dict(wf=wname, protect=plabel, missing=missing, args=args, answer=ans, symlinked=symlinked)
             declined = ans in ("n\n", "")
             sel, exp_removed = expected(defs, prot, set(files) - {"unrelated.txt", "sub/other"}, allf, tg)
             exp_files = dict(w0.files)
@@ -152,6 +158,9 @@ def run(ctx):
         for plabel, _ in pv:
             for missing in (miss_sets if plabel in ("none", "all") or not quick else miss_sets[:2]):
                 items.append((wname, plabel, missing))
+        for o in outs[:2] if quick else outs:
+            if "/" not in o:
+                items.append((wname, "none", (), o))
     ctx.pmap(me, "case_batch", items, chunk=2)
     ctx.pmap(me, "fresh_compare_batch", freshtier.items([(["clean", "-f", "--all"], None), (["clean"], "n\n"), (["clean", "A"], None), (["clean", "--all", "C"], None)], backends=("slurm", "sge", "lsf") if ctx.tier != "quick" else ("slurm", "lsf")), chunk=2)
     ctx.notes.setdefault("coverage_extra", {})["fresh_process_cases"] = ctx.acc.extra["fresh_processes"]
@@ -172,5 +181,5 @@ def replay(case):
     from mc.runner import Acc
 
     acc = Acc()
-    case_batch(acc, [(case["wf"], case["protect"], tuple(case["missing"]))])
+    case_batch(acc, [(case["wf"], case["protect"], tuple(case["missing"]), case.get("symlinked"))])
     return [v for v in acc.violations if v["case"]["args"] == case["args"] and v["case"]["answer"] == case["answer"]]
